@@ -45,6 +45,7 @@ class Callee:
     sig: Any = None                  # explicit parameter list (names) when no real signature is available
     cls: str | None = None           # class name of a returned ref
     post: Any = None                 # for kind 'uf'/'effect': assumed facts  callable(ex, bound, result)->F|term|None
+    lazy: bool = False               # kind 'custom' called by bare name: the handler gets the call node, arguments unevaluated
 
 
 @dataclass
